@@ -156,6 +156,10 @@ def r19a(ctx):
         a = an(ctx.F.one(SFC + ctor))
         cf = a.calls('file_utils::privilege_context::create_file')
         aggs = [(b, si, e) for (b, si, k, e) in a.ret_sites() if k == 'ok']
+        # the constructor may end in a (since inlined) helper whose Result is returned as it is: expand the join point
+        for (b_, si_, k_, e_) in a.ret_sites():
+            if k_ == 'other':
+                aggs += [(sb, ssi, se) for (sb, ssi, se) in a.flow.sources(e_, (b_, si_)) if se[0] == 'agg' and se[2].endswith('Result::Ok')]
         ok = len(cf) == 1 and len(aggs) == 1
         if ok:
             sfc = aggs[0][2][3][0][1]
@@ -334,7 +338,19 @@ def r19g(ctx):
                     names.append(((nb if nb is not None else (sb if sb is not None else b)), ne))
             else:
                 names.append(((sb if sb is not None else b), se))
-    random_all = bool(names) and all(flow.mentions(ne, is_rand) for (_, ne) in names)
+    def fed_random(ne):
+        # a buffer that is part of the name and is filled (push / push_str / extend / write!) with something drawn from the generator
+        for c in a.calls():
+            t = a.term(c)
+            if len(t['args']) < 2 or not any(flow.mentions(a.arg(c, i), is_rand) for i in range(1, len(t['args']))):
+                continue
+            buf = a.arg(c, 0)
+            while buf[0] in ('ref', 'deref', 'cast'):
+                buf = buf[1]
+            if buf[0] in ('local', 'call') and flow.mentions(ne, lambda z: z == buf):
+                return True
+        return False
+    random_all = bool(names) and all(flow.mentions(ne, is_rand) or fed_random(ne) for (_, ne) in names)
     if random_all:
         ctx.check(True, 'R19g', TP, 'random name', a.loc(names[0][0]), 'every temporary name (%d form(s)) contains a value drawn from a random generator: a leftover of an interrupted process is not reopened' % len(names))
         ctx.floor('R19g', 'temporary name forms', len(names), 2)
@@ -356,7 +372,7 @@ def r19g(ctx):
                 trunc.append((x, c))
             elif last == 'set_len' and x.arg(c, 1)[:2] == ('const', 0):
                 trunc.append((x, c))
-    bad = [ne for (_, ne) in names if not flow.mentions(ne, is_rand)]
+    bad = [ne for (_, ne) in names if not (flow.mentions(ne, is_rand) or fed_random(ne))]
     ctx.check(bool(trunc), 'R19g', TP, 'predictable temporary name reopened', a.loc(names[0][0]) if names else '-',
               'temporary names are predictable but the file is opened truncating / create-new (%d site(s))' % len(trunc),
               'a temporary name without a random component (%s) is opened with create(true).truncate(false): after an interrupted write a later process reuses the leftover file and renames its stale tail under a final name' % (flow.show(bad[0])[:90] if bad else 'no name form found'))
